@@ -4,6 +4,7 @@ C06 driver.  Case lines (REC as in C05: NAME/TYPE/CLS/TTL/RDATA):
   tag RDATAHEX                                 → key tag                      (calculate_key_tag_internal)
   attl EXP OTTL RECTTL NOW                     → authenticated TTL
   vk NOW KPROOF KEY SIG NAME TYPE ORC REC*     → `ok P TTL|none` | `err P`    (verify_rrset_with_dnskey)
+  vkx EXPECT …vk args…                         → the same (external vectors; EXPECT is for the harness)
   begin [ta=ALG:PK,…] [pos=LO:HI] [neg=LO:HI]  → resets the validation cache (ta: trust anchors, harness only)
   h NOW INST CK KEYS SIG NAME TYPE ORCS REC*   → `fresh|cached|nolookup P ttl… sig P TTL dev=XY` (verify_rrsets via send; nolookup: signer is not the owner's zone, no DNSKEY query is made; X: class outlivesSignature, Y: class sameKeyOtherRdata)
   hold …same…                                  → the same for the pre-repair cache model (validatePreFix; regression only)
@@ -83,7 +84,7 @@ def parseCfg : List String → CacheConfig → Option CacheConfig
     | ["ta", _] => parseCfg ts c   -- trust anchors of the block: harness only
     | _ => none
 
-def step (s : State) (toks : List String) : State × String :=
+def stepCore (s : State) (toks : List String) : State × String :=
   match toks with
   | ["serial", a, b] =>
     match a.toNat?, b.toNat? with
@@ -136,8 +137,14 @@ def step (s : State) (toks : List String) : State × String :=
         if v.isOk then s!"{showProof v.proof} {updatedTtl v sg.ttl}" else s!"N {sg.ttl}"
       let dev2 := !fresh && v.proof == .secure && s.past.any (fun r' => sameKeyOtherRdata r' req)
       pure ({ s with cache := c', past := if fresh then req :: s.past else s.past },
-        s!"{if !(sg.input.signer.zoneOf name.toLowercase) then "nolookup" else if fresh then "fresh" else "cached"} {showProof v.proof} {ttls} sig {sigOut} dev={showBool (outlivesSignature req v fresh)}{showBool dev2}")
+        s!"{if noLookup req then "nolookup" else if fresh then "fresh" else "cached"} {showProof v.proof} {ttls} sig {sigOut} dev={showBool (outlivesSignature req v fresh)}{showBool dev2}")
     r.getD (s, "bad-op")
   | _ => (s, "bad-op")
+
+/-- `vkx EXPECT …` is an external vector: a `vk` line whose expectation only the harness looks at -/
+def step (s : State) (toks : List String) : State × String :=
+  match toks with
+  | "vkx" :: _expect :: rest => stepCore s ("vk" :: rest)
+  | _ => stepCore s toks
 
 end HickoryVerif.Drv.C06
